@@ -548,7 +548,7 @@ fn ilv_oracle() -> crate::harness::ilv::Oracle {
     })
 }
 
-fn ilv_programs() -> Vec<crate::harness::ilv::Program> {
+fn ilv_programs(quick: bool) -> Vec<crate::harness::ilv::Program> {
     use crate::harness::ilv::Program;
     use crate::props::common::{adv, get, put, put_ttl};
     let mut v = Vec::new();
@@ -562,8 +562,15 @@ fn ilv_programs() -> Vec<crate::harness::ilv::Program> {
         p
     };
     v.push(mk("evicting-put(d,4)||{tick} sweeping a (a,c accessed; b cold)/W=6", 6, vec![put_ttl(1, 2, 1000), put(2, 2), put(3, 2), get(1), get(3), get(3), adv(3000)], put(4, 4)));
-    v.push(mk("evicting-put(d,5)||{tick} sweeping a (nothing accessed)/W=6", 6, vec![put_ttl(1, 3, 1000), put(2, 1), put(3, 2), adv(3000)], put(4, 5)));
-    v.push(mk("evicting-put(d,3)||{tick} sweeping a and b/W=6", 6, vec![put_ttl(1, 2, 1000), put_ttl(2, 2, 1000), put(3, 2), adv(3000)], put(4, 3)));
+    // (map iteration order as a data choice only in the first program and in the thorough tier: it multiplies the schedules)
+    for (name, init, incoming) in [
+        ("evicting-put(d,5)||{tick} sweeping a (nothing accessed)/W=6", vec![put_ttl(1, 3, 1000), put(2, 1), put(3, 2), adv(3000)], put(4, 5)),
+        ("evicting-put(d,3)||{tick} sweeping a and b/W=6", vec![put_ttl(1, 2, 1000), put_ttl(2, 2, 1000), put(3, 2), adv(3000)], put(4, 3)),
+    ] {
+        let mut p = mk(name, 6, init, incoming);
+        p.world.iter_order_is_choice = !quick;
+        v.push(p);
+    }
     {
         // the same key released by the worker (delete) and by the sweeper; afterwards a colder put that does not fit
         // beside the hot key b must be refused
@@ -595,7 +602,7 @@ pub fn def(ctx: &Ctx) -> PropertyDef {
         let name = pipeline_spec(ctx, w).name;
         scenarios.push(seq_scenario(move |c| pipeline_spec(c, w), &name));
     }
-    for p in ilv_programs() {
+    for p in ilv_programs(ctx.quick()) {
         let nthreads = p.threads.len();
         scenarios.push(crate::harness::ilv::program_scenario(p, ilv_oracle(), move |c| crate::harness::ilv::tier_cfg(c, nthreads)));
     }
